@@ -309,7 +309,7 @@ def run_ctor_chunk(_chunk, st):
     ns = sut.load()
     evals = 0
 
-    for version in ('2.0', '1', '', None, 1.0, 'v1.0', '1.0 ', '0.9'):
+    for version in ('2.0', '1', '', 'v1.0', '1.0 ', '0.9', '1.00', '10'):
         stream = AppendOnly()
         evals += 1
 
